@@ -22,7 +22,26 @@ def _proof(pid, extra_files=(), theorems=None):
             "files": _COMMON_FILES + list(extra_files) + [f"pool/Thm_{pid}.v"]}
 
 
-PROOF = {}   # filled in below, once the theorem files exist (see register_proofs)
+def _thm_files():
+    import os as _os
+    from core import COQ
+    out = {}
+    d = _os.path.join(COQ, "theories", "pool")
+    for i in range(1, 16):
+        pid = f"C{i:02d}"
+        f = _os.path.join(d, f"Thm_{pid}.v")
+        if _os.path.exists(f):
+            import re as _re
+            text = _re.sub(r"\(\*.*?\*\)", " ", open(f).read(), flags=_re.S)
+            thms = _re.findall(r"^\s*Theorem\s+(\w+)", text, flags=_re.M)
+            # every .v file of the pool development is part of the property's dependency cone
+            files = ["base/Base.v"] + sorted("pool/" + x for x in _os.listdir(d)
+                                             if x.endswith(".v") and not x.startswith("Thm_")) + [f"pool/Thm_{pid}.v"]
+            out[pid] = {"module": f"Thm_{pid}", "theorems": thms, "files": files}
+    return out
+
+
+PROOF = _thm_files()
 
 TRUSTED = [
     "Coq 8.16.1 kernel (coqc; coqchk in the thorough tier); no native_compute",
